@@ -583,6 +583,20 @@ impl Property for C04 {
             // program), restored after later edits and runs
             let at = rng.usize(history.len() + 1);
             history.insert(at, H::Snap);
+            if rng.pct(50) && !prog.lines.is_empty() {
+                // a DELETE that really removes lines while the snapshot is alive
+                let a = prog.lines[rng.usize(prog.lines.len())].num;
+                let b = prog.lines[rng.usize(prog.lines.len())].num;
+                history.push(H::Line {
+                    text: match rng.below(3) {
+                        0 => format!("DELETE {}", a),
+                        1 => format!("DELETE {}-{}", a.min(b), a.max(b)),
+                        _ => format!("DELETE -{}", a),
+                    },
+                    must_not_edit: false,
+                    budget: 500,
+                });
+            }
             if rng.pct(60) {
                 history.push(H::Line {
                     text: edit_line(rng, &prog, &cfg),
